@@ -143,3 +143,35 @@ Example C15_values_example :
   jget (cmd_member current current_consts c15_c A true false "filter" c15_filter) [0] = Some (JStr "REDACTED") /\
   jget (cmd_member current current_consts c15_c A true false "filter" c15_filter) [2; 0] = Some (JStr "REDACTED").
 Proof. vm_compute. repeat split; reflexivity. Qed.
+
+(* ---------- where the full statement fails on the faithful model (known findings F18, F31, F33) ---------- *)
+(* The witnesses, replayed on the implementation, are the findings recorded in known_findings.json. *)
+From Model Require Import PlanSummary Hash.
+From Proofs Require Import RelCorollaries.
+Open Scope string_scope.
+
+(* F18: the plan summary is rewritten by global substring replacement - an index key that is a substring of the word IXSCAN destroys it *)
+Theorem C15_plan_summary_refuted :
+  exists ps, String.prefix "IXSCAN {" ps = true /\
+             String.prefix "IXSCAN {" (redact_plan_summary_with (hash_name "REDACTED") ps) = false.
+Proof. exists "IXSCAN { IX: 1 }". vm_compute. split; reflexivity. Qed.
+Print Assumptions C15_plan_summary_refuted.
+
+(* F31: a field name given as a plain string VALUE (distinct's key) stays readable while the same name as a key is renamed;
+   F33: a user field called `then` (a bare word of the core operator table) keeps its name as a key *)
+Theorem C15_names_remaining_refuted :
+  let c := {| repl := "REDACTED"; nums := false; bools := false; ips := false; nss := false; eager := ["mydb"]; re := None |} in
+  let A := real_actions current_consts c None in
+  (exists e p q, jget (JObj e) p = Some (JStr "secretField") /\ jkeys (JObj e) q = ["attr"; "command"; "query"; "secretField"] /\
+                 jget (redact_tree current current_consts c A (JObj e)) p = Some (JStr "secretField") /\
+                 jkeys (redact_tree current current_consts c A (JObj e)) q = ["attr"; "command"; "query"; hash_name "REDACTED" "secretField"]) /\
+  (exists v, cmd_member current current_consts c A true false "filter" v = JObj [("then", JStr "REDACTED"); (hash_name "REDACTED" "owner", JStr "REDACTED")] /\
+             v = JObj [("then", JStr "x"); ("owner", JStr "y")]).
+Proof.
+  split.
+  - exists [("c", JStr "COMMAND"); ("attr", JObj [("ns", JStr "mydb.users"); ("command", JObj [("distinct", JStr "users"); ("key", JStr "secretField"); ("query", JObj [("secretField", JNum "1")])])])],
+           [1; 1; 1], [1; 1; 2; 0].
+    vm_compute. repeat split; reflexivity.
+  - eexists. split; [|reflexivity]. vm_compute. reflexivity.
+Qed.
+Print Assumptions C15_names_remaining_refuted.
